@@ -270,7 +270,7 @@ Theorem cut_refuted_array :
 Proof. refute. Qed.
 (* any two-argument call in a ';' locale: f(1;2) pastes as f(1,2) *)
 Theorem cut_refuted_arg_separator : cut_refutes false nm_en0 (ENamedFun None [102] [k1; k2]). Proof. refute. Qed.
-(* a boolean in a language whose booleans are not TRUE/FALSE: VERDADERO pastes as TRUE (a name) *)
+(* a boolean in a language whose booleans are not TRUE/FALSE: VERDADERO pastes as TRUE (not a token in that language) *)
 Theorem cut_refuted_boolean_english : cut_refutes true nm_es0 (EBool true). Proof. refute. Qed.
 (* a user function with an upper-case letter round-trips here (the moved printer does NOT lower-case it),
    unlike [stringify] (F62): recorded for completeness *)
